@@ -22,6 +22,16 @@ COMMON_CORPUS += ["(?i)é*x", "(?i)(?=)é*x", "(?i)(?:é|bb)(?=)", "(é)(?=)(?i)
 COMMON_CORPUS += [pre + "(a*)\\n?" + a + "\\1" for pre in ("", "(?m)") for a in ("^", "$", "\\b", "\\B", "\\<", "\\>", "\\A", "\\z")]
 
 
+def seed_inputs(prop):
+    """corpus/seed_inputs.json: the minimized failing inputs the checks found for earlier seeded
+    changes of this property - run first, with their texts, whatever the random streams do"""
+    import os
+    p = os.path.join(core.ROOT, "corpus", "seed_inputs.json")
+    if not os.path.exists(p):
+        return []
+    return [x for x in json.load(open(p)).get(prop, []) if isinstance(x.get("pattern"), str)]
+
+
 def known_for(prop):
     return [f for f in core.load_known()["findings"] if prop in f["properties"]]
 
@@ -37,6 +47,7 @@ def classify(prop, info):
 def gen_patterns(tier, seed, cfg):
     r = core.rng(seed, cfg["prop"])
     pats = list(cfg.get("corpus", [])) + [p for p in COMMON_CORPUS if p not in cfg.get("corpus", [])]
+    pats += [x["pattern"] for x in seed_inputs(cfg["prop"]) if x["pattern"] not in pats]
     ncorp = len(pats)
     if cfg.get("products", True):
         pp = gen.product_patterns()
@@ -74,7 +85,7 @@ def text_set(tier, seed, cfg):
     return base, extra + rnd
 
 
-ALWAYS = ["aaab", "aaa", "a\nab", "ab a", "Éx", "b-", "¿x"]      # more repetitions than {1,2} / {0,2} admit, with and without a continuation
+ALWAYS = ["aaab", "aaa", "a\nab", "ab a", "Éx", "b-", "¿x", "a𝄞b"]      # more repetitions than {1,2} / {0,2} admit, with and without a continuation
 
 
 def pick_texts(info, base, extra, r, k_base, k_extra):
@@ -100,9 +111,13 @@ def run(cfg, tier, seed, replay=None):
     kb = cfg.get("k_base_quick", 12) if tier == "quick" else cfg.get("k_base_thorough", 60)
     ke = cfg.get("k_extra_quick", 6) if tier == "quick" else cfg.get("k_extra_thorough", 40)
     infos = engine.prog_info(pats)
+    seed_texts = {}
+    for x in seed_inputs(prop):
+        if isinstance(x.get("text"), str):
+            seed_texts.setdefault(x["pattern"], []).append(x["text"])
     tmap = {}
     for info in infos:
-        tmap[info["pattern"]] = (pick_texts(info, base, extra, r, kb, ke) + cfg.get("pattern_texts", {}).get(info["pattern"], [])) if not replay else base
+        tmap[info["pattern"]] = (pick_texts(info, base, extra, r, kb, ke) + cfg.get("pattern_texts", {}).get(info["pattern"], []) + seed_texts.get(info["pattern"], [])) if not replay else base
     texts_for = lambda info: tmap[info["pattern"]]
     compiled = [i for i in infos if engine.ngroups_of(i) is not None]
     ctx = {"cfg": cfg, "tier": tier, "seed": seed, "res": res, "infos": infos, "texts_for": texts_for,
